@@ -11,6 +11,8 @@ PATTERNS = [
     r"celeritas::detail::(MscStepFromGeo|MscStepToGeo)::operator\(\)",
     r"celeritas::detail::SurfaceTranslator::operator\(\)",
     r"celeritas::detail::SurfaceTransformer::operator\(\)$",
+    r"celeritas::detail::ProcessSecondariesExecutor::operator\(\)$",
+    r"celeritas::detail::LocateAliveExecutor::operator\(\)",
 ]
 
 
